@@ -113,12 +113,14 @@ def gen(rng, tier, run):
     r = rng.random()
     if r < 0.15:
         case['status'] = rng.choice(['int', 'npint'])
+    if rng.random() < 0.12 and 'hidden' not in case:
+        case['names'] = 'attrs'
     return case
 
 
 def shrink(case):
     ops = case['ops']
-    for key in ('root', 'hidden', 'status'):
+    for key in ('root', 'hidden', 'status', 'names'):
         if key in case:
             yield {k: v for k, v in case.items() if k != key}
     for i in range(len(ops) - 1):
@@ -136,9 +138,22 @@ def shrink(case):
 _PFX = {}
 
 
+ATTR_NAMES = {0: 'dictionary', 1: 'lock', 2: 'status', 3: '__dict__'}     # names of attributes of Env / keys of entries
+
+
 def tn(t):
-    """directory / task name of task number t (hidden names for some cases)"""
+    """directory / task name of task number t (hidden names for some cases, names that are also attribute names)"""
+    if _PFX.get('names') == 'attrs' and t in ATTR_NAMES:
+        return ATTR_NAMES[t]
     return _PFX.get('p', '') + f't{t}'
+
+
+def untn(name):
+    """task number of a task / directory name"""
+    for t, nm in ATTR_NAMES.items():
+        if name == nm:
+            return t
+    return int(name.lstrip('.')[1:])
 
 
 def build_env(entries, root):
@@ -167,8 +182,8 @@ def dump_env(env, root):
     out = []
     for name, sub in env.items():
         outdir = sub.get('output_dir')
-        out.append([int(name.lstrip('.')[1:]), int(sub['status']) if hasattr(sub['status'], 'value') else int(sub['status']),
-                    None if outdir is None else int(os.path.basename(outdir).lstrip('.')[1:]), sub.get('p')])
+        out.append([untn(name), int(sub['status']) if hasattr(sub['status'], 'value') else int(sub['status']),
+                    None if outdir is None else untn(os.path.basename(outdir)), sub.get('p')])
     return sorted(out)
 
 
@@ -182,6 +197,7 @@ def run_impl(case, run):
     # an output root whose name holds glob characters, task names that start with a dot: legal names
     _PFX['p'] = '.' if case.get('hidden') else ''
     _PFX['status'] = case.get('status')
+    _PFX['names'] = case.get('names')
     root = tempfile.mkdtemp(prefix='c14_[1]x_' if case.get('root') == 'brackets' else 'c14_')
     outs = []
     sweep = {'files': 0, 'cuts': 0, 'bad': []}
@@ -247,9 +263,9 @@ def run_impl(case, run):
             elif name == 'read':
                 try:
                     env = read_env(root=root, names=[tn(t) for t in op[1]], filename=FILENAME, fmt='pickle')
-                    outs.append({'ok': [[int(k.lstrip('.')[1:]), int(sub['status']),
-                                         None if 'output_dir' not in sub else int(os.path.basename(sub['output_dir']).lstrip('.')[1:]),
-                                         sub.get('p')] for k, sub in sorted(env.items())]})
+                    outs.append({'ok': [[untn(k), int(sub['status']),
+                                         None if 'output_dir' not in sub else untn(os.path.basename(sub['output_dir'])),
+                                         sub.get('p')] for k, sub in sorted(env.items(), key=lambda kv: untn(kv[0]))]})
                 except Exception as exc:  # pylint: disable=broad-except
                     outs.append({'raise': next((n for n, c in (('EOFError', EOFError), ('UnpicklingError', pickle.UnpicklingError),
                                                                ('ValueError', ValueError), ('AttributeError', AttributeError),
@@ -261,7 +277,7 @@ def run_impl(case, run):
         if run.tier != 'thorough':
             files = files[:1]
         for path in files:
-            t = int(os.path.basename(os.path.dirname(path)).lstrip('.')[1:])
+            t = untn(os.path.basename(os.path.dirname(path)))
             full = open(path, 'rb').read()
             sweep['files'] += 1
             for k in range(len(full)):
